@@ -19,7 +19,7 @@ def Accept (V : Verify) (s : State) (now : Nat) (d : Bytes) : Prop :=
 
 /-! Helper lemmas along the definition of `dgram`. -/
 
-theorem parseReport_some {V : Verify} {s : State} {b : Bytes} {r : Report}
+theorem c01h_parseReport_some {V : Verify} {s : State} {b : Bytes} {r : Report}
     (h : parseReport V s b = some r) :
     Report.decode b = some r ∧ ∃ dev, s.devices.get r.id = some dev ∧
       V dev.auth.key (Report.signingBytes r) r.sig = true := by
@@ -38,7 +38,7 @@ theorem parseReport_some {V : Verify} {s : State} {b : Bytes} {r : Report}
         exact ⟨rfl, dev, hg, hv⟩
       · simp [hv] at h
 
-theorem parseReport_none {V : Verify} {s : State} {b : Bytes}
+theorem c01h_parseReport_none {V : Verify} {s : State} {b : Bytes}
     (h : parseReport V s b = none) :
     ∀ r dev, Report.decode b = some r → s.devices.get r.id = some dev →
       V dev.auth.key (Report.signingBytes r) r.sig = false := by
@@ -50,13 +50,13 @@ theorem parseReport_none {V : Verify} {s : State} {b : Bytes}
   · simpa using hv
 
 /-- Outside the storage window `integrate` is the identity. -/
-theorem integrate_outside (cfg : Cfg) (s : State) (r : Report) (dev : Dev)
+theorem c01h_integrate_outside (cfg : Cfg) (s : State) (r : Report) (dev : Dev)
     (hg : s.devices.get r.id = some dev) (h : r.ts < s.off ∨ s.off + window ≤ r.ts) :
     integrate cfg s r = some (s, false) := by
-  simp [integrate, hg, integrateDev_outside s.off dev r h]
+  simp [integrate, hg, c02h_integrateDev_outside s.off dev r h]
 
 /-- A report that was not recorded left the state alone. -/
-theorem integrate_false {cfg : Cfg} {s s' : State} {r : Report}
+theorem c01h_integrate_false {cfg : Cfg} {s s' : State} {r : Report}
     (h : integrate cfg s r = some (s', false)) : s' = s := by
   unfold integrate at h
   cases hg : s.devices.get r.id with
@@ -72,7 +72,7 @@ theorem integrate_false {cfg : Cfg} {s s' : State} {r : Report}
       | true => simp [hi] at h
 
 /-- What `integrate` may change. -/
-theorem integrate_frame {cfg : Cfg} {s s' : State} {r : Report} {b : Bool}
+theorem c01h_integrate_frame {cfg : Cfg} {s s' : State} {r : Report} {b : Bool}
     (h : integrate cfg s r = some (s', b)) :
     s'.gcaKey = s.gcaKey ∧ s'.gcaAvail = s.gcaAvail ∧ s'.shortIds = s.shortIds ∧ s'.bans = s.bans ∧
     s'.off = s.off ∧ s'.history = s.history ∧ s'.recentA = s.recentA ∧ s'.servers = s.servers ∧
@@ -80,7 +80,7 @@ theorem integrate_frame {cfg : Cfg} {s s' : State} {r : Report} {b : Bool}
     s'.disk.gcaKey = s.disk.gcaKey ∧
     (∀ id, id ≠ r.id → s'.devices.get id = s.devices.get id) := by
   cases b with
-  | false => rw [integrate_false h]; simp
+  | false => rw [c01h_integrate_false h]; simp
   | true =>
     unfold integrate at h
     cases hg : s.devices.get r.id with
@@ -101,19 +101,19 @@ theorem integrate_frame {cfg : Cfg} {s s' : State} {r : Report} {b : Bool}
           exact FMap.get_set_ne _ _ _ _ (Ne.symm hne)
 
 /-- With full-length arrays `integrate` never hits the panicking branches. -/
-theorem integrate_ne_none (cfg : Cfg) (s : State) (r : Report) (dev : Dev)
+theorem c01h_integrate_ne_none (cfg : Cfg) (s : State) (r : Report) (dev : Dev)
     (hg : s.devices.get r.id = some dev) (hlen : dev.reports.length = window) :
     integrate cfg s r ≠ none := by
   by_cases hw : r.ts < s.off ∨ s.off + window ≤ r.ts
-  · rw [integrate_outside cfg s r dev hg hw]; simp
-  · obtain ⟨d', b, hi, _⟩ := integrateDev_spec s.off dev r hlen (by omega) (by omega)
+  · rw [c01h_integrate_outside cfg s r dev hg hw]; simp
+  · obtain ⟨d', b, hi, _⟩ := c02h_integrateDev_spec s.off dev r hlen (by omega) (by omega)
     unfold integrate
     simp only [hg, hi]
     cases b <;> simp
 
 /-- The state after a datagram is the old one or the result of integrating the
 report the datagram decodes to. -/
-theorem dgram_state (cfg : Cfg) (V : Verify) (s : State) (now : Nat) (d : Bytes) :
+theorem c01h_dgram_state (cfg : Cfg) (V : Verify) (s : State) (now : Nat) (d : Bytes) :
     (dgram cfg V s now d).1 = s ∨
     ∃ r b, Report.decode (d.take 80) = some r ∧ integrate cfg s r = some ((dgram cfg V s now d).1, b) := by
   unfold dgram
@@ -134,7 +134,7 @@ theorem dgram_state (cfg : Cfg) (V : Verify) (s : State) (now : Nat) (d : Bytes)
           | none => simp
           | some q =>
             obtain ⟨s', b⟩ := q
-            exact Or.inr ⟨r, b, (parseReport_some hp).1, hi⟩
+            exact Or.inr ⟨r, b, (c01h_parseReport_some hp).1, hi⟩
 
 /-- Every other datagram leaves the whole state (memory and disk, hence every
 observable computed from it) exactly as it was. -/
@@ -148,7 +148,7 @@ theorem c01_unchanged (cfg : Cfg) (V : Verify) (s : State) (now : Nat) (d : Byte
     | none => rfl
     | some r =>
       simp only
-      obtain ⟨hd, dev, hg, hv⟩ := parseReport_some hp
+      obtain ⟨hd, dev, hg, hv⟩ := c01h_parseReport_some hp
       by_cases ht : (r.ts : Int) < (now : Int) - 432 ∨ (r.ts : Int) > (now : Int) + 432
       · simp [ht]
       · simp only [ht, if_false]
@@ -156,7 +156,7 @@ theorem c01_unchanged (cfg : Cfg) (V : Verify) (s : State) (now : Nat) (d : Byte
         · simp [hp0]
         · simp only [hp0, if_false]
           by_cases hw : r.ts < s.off ∨ s.off + window ≤ r.ts
-          · rw [integrate_outside cfg s r dev hg hw]; rfl
+          · rw [c01h_integrate_outside cfg s r dev hg hw]; rfl
           · exfalso
             apply h
             refine ⟨by omega, r, dev, hd, hg, hv, by omega, by omega, by omega, by omega, ?_, ?_⟩
@@ -174,7 +174,7 @@ theorem c01_nopanic (cfg : Cfg) (V : Verify) (s : State) (now : Nat) (d : Bytes)
     | none => simp
     | some r =>
       simp only
-      obtain ⟨hd, dev, hg, hv⟩ := parseReport_some hp
+      obtain ⟨hd, dev, hg, hv⟩ := c01h_parseReport_some hp
       by_cases ht : (r.ts : Int) < (now : Int) - 432 ∨ (r.ts : Int) > (now : Int) + 432
       · simp [ht]
       · simp only [ht, if_false]
@@ -182,7 +182,7 @@ theorem c01_nopanic (cfg : Cfg) (V : Verify) (s : State) (now : Nat) (d : Bytes)
         · simp [hp0]
         · simp only [hp0, if_false]
           cases hi : integrate cfg s r with
-          | none => exact absurd hi (integrate_ne_none cfg s r dev hg (hinv.devOk _ _ hg).2.1)
+          | none => exact absurd hi (c01h_integrate_ne_none cfg s r dev hg (hinv.devOk _ _ hg).2.1)
           | some q =>
             obtain ⟨s', b⟩ := q
             cases b <;> simp
@@ -199,10 +199,10 @@ theorem c01_effect (cfg : Cfg) (V : Verify) (s : State) (now : Nat) (d : Bytes) 
     (∀ id, (∀ r, Report.decode (d.take 80) = some r → id ≠ r.id) → s'.devices.get id = s.devices.get id) := by
   intro s'
   have _ := hinv
-  rcases dgram_state cfg V s now d with h | ⟨r, b, hd, hi⟩
+  rcases c01h_dgram_state cfg V s now d with h | ⟨r, b, hd, hi⟩
   · have hs : s' = s := h
     rw [hs]; simp
-  · obtain ⟨h1, h2, h3, h4, h5, h6, h7, h8, h9, h10, h11, h12, h13⟩ := integrate_frame hi
+  · obtain ⟨h1, h2, h3, h4, h5, h6, h7, h8, h9, h10, h11, h12, h13⟩ := c01h_integrate_frame hi
     exact ⟨h1, h2, h3, h4, h5, h6, h7, h8, h9, h10, h11, h12, fun id hid => h13 id (hid r hd)⟩
 
 /-! Corollaries: each clause of the statement. -/
